@@ -106,6 +106,7 @@ PROPS = {
             regress("C06"),
             {"run": "^TestC06$", "quick": 15000, "thorough": 150000, "timeout_quick": 900},
             {"run": "^TestC06Big$", "quick": 1, "thorough": 1, "rapid": False, "single": True},
+            {"run": "^TestC06Counts$", "quick": 1, "thorough": 1, "rapid": False, "single": True},
             {"fuzz": "FuzzFile", "fuzztime": "90s", "thorough_only": True, "run": "FuzzFile"},
             {"fuzz": "FuzzBody", "fuzztime": "90s", "thorough_only": True, "run": "FuzzBody"},
             {"fuzz": "FuzzSchema", "fuzztime": "60s", "thorough_only": True, "run": "FuzzSchema"},
